@@ -104,3 +104,70 @@ def show(s):
         out.append("0x%02x" % xs[i] if i == j else "0x%02x-0x%02x" % (xs[i], xs[j]))
         i = j + 1
     return ",".join(out) or "(none)"
+
+
+def predicate_sets(fn, is_byte, inset=ALL):
+    """For a loop-free function (or closure body, helpers spliced in) that classifies one byte and returns bool:
+    -> (bytes for which it returns true, bytes for which it returns false, bytes whose result this analysis cannot read).
+    Forward dataflow over (block, boolean locals assigned a constant on the way) -> byte set: the comparison tree splits the
+    byte set as in reach_sets, `_x = const true/false` and copies of such locals are remembered, a switch on such a local
+    follows the matching edge only, and at a return the value of the return place decides the bucket."""
+    start = (0, frozenset())
+    sets = {start: frozenset(inset)}
+    dq = deque([start])
+    true_s, false_s, unk = frozenset(), frozenset(), frozenset()
+    n = 0
+    while dq:
+        n += 1
+        if n > 200000:
+            raise RuntimeError("predicate analysis did not converge")
+        state = dq.popleft()
+        b, known = state
+        cur = sets[state]
+        if fn.is_cleanup(b) or not cur:
+            continue
+        kd = dict(known)
+        for st in fn.blocks[b]["st"]:
+            if st.get("k") != "=":
+                continue
+            if st["p"][1]:
+                continue
+            r, v = st["r"], None
+            if r[0] == "use" and r[1][0] == "k" and r[1][1].get("ty") == "bool":
+                v = 1 if str(r[1][1].get("v")) == "1" else 0
+            elif r[0] == "use" and r[1][0] in ("c", "m") and not r[1][1][1]:
+                v = kd.get(r[1][1][0])
+            if v is None:
+                kd.pop(st["p"][0], None)
+            else:
+                kd[st["p"][0]] = v
+        t = fn.blocks[b]["t"]
+        if t["k"] == "return":
+            if kd.get(0) == 1:
+                true_s |= cur
+            elif kd.get(0) == 0:
+                false_s |= cur
+            else:
+                unk |= cur
+            continue
+        if t["k"] == "call" and t.get("dest") is not None and not t["dest"][1]:
+            kd.pop(t["dest"][0], None)
+        k2 = frozenset(kd.items())
+        if t["k"] == "switch" and t["discr"][0] in ("c", "m") and not t["discr"][1][1] and t["discr"][1][0] in kd and t.get("dty") == "bool":
+            val = kd[t["discr"][1][0]]
+            nxt = {}
+            for s_, lab in fn.succ(b):
+                if (lab == 0) == (val == 0):
+                    nxt[s_] = cur
+        else:
+            nxt = edge_sets(fn, b, cur, is_byte)
+        for s_, sub in nxt.items():
+            if fn.is_cleanup(s_) or not sub:
+                continue
+            ns = (s_, k2)
+            old = sets.get(ns)
+            new = (old or frozenset()) | sub
+            if old is None or new != old:
+                sets[ns] = new
+                dq.append(ns)
+    return true_s, false_s, unk
